@@ -14,6 +14,8 @@ struct vs_vec { char *data; size_t size; };
 size_t g_i; char g_old; char vs_empty_storage[1];
 static inline size_t vs_vec_size(const struct vs_vec *v) { return v->size; }
 static inline char  *vs_vec_data(const struct vs_vec *v) { return v->data; }
+static inline struct vs_vec vs_vec_move(struct vs_vec *src) { struct vs_vec r = *src; src->data = vs_empty_storage; src->size = 0; return r; }
+static inline struct vs_vec *vs_vec_move_assign(struct vs_vec *dst, struct vs_vec *src) { if (dst != src) { *dst = *src; src->data = vs_empty_storage; src->size = 0; } return dst; }
 void vs_vec_resize(struct vs_vec *v, size_t n)
 __CPROVER_requires(FRESH(v, sizeof(*v)) && v->size <= MAXLEN && n <= MAXLEN)
 __CPROVER_requires(g_i < v->size ==> v->data[g_i] == g_old)
@@ -32,6 +34,8 @@ static inline struct vs_astr *vs_astr_assign_ptr_n(struct vs_astr *s, const char
 #define SB(d) ((d)->vs_base_StreamBuf)
 /* ghost: offset of the put area inside data_ */
 size_t g_poff;
+/* ghost: number of bytes written into the source buffer before a move */
+size_t g_w0;
 /* representation invariant: the buffer never exceeds the cap; the put area is the tail [g_poff, size) of data_ */
 #define DSB_INV(d) ((d)->data_.size <= (d)->maxSize_ && (d)->maxSize_ <= MAXLEN && FRESH((d)->data_.data, (d)->data_.size) \
     && g_poff <= (d)->data_.size && IN_RANGE((d)->data_.data, SB(d).pb, (d)->data_.data + (d)->data_.size) \
@@ -51,6 +55,9 @@ STUBS.update({
     'baseinit:Pistache::StreamBuf<char>': '$->vs_base_StreamBuf = (struct vs_streambuf){0}',
     'eq_int_type': 'vs_traits_eq_int_type', 'not_eof': 'vs_traits_not_eof',
     'std::string::assign/2': 'vs_astr_assign_ptr_n', 'ctor:std::string/0': {'expr': 'vs_astr_ctor_empty()'},
+    'move': {'expr': '($0)'},
+    # vector move construction / assignment: the storage changes hands, the source is left empty (libstdc++; the standard says valid but unspecified)
+    'ctor:std::vector<char>/copy': 'vs_vec_move', 'operator=|std::vector<char>,std::vector<char>': {'expr': '(*vs_vec_move_assign(&($0), &($1)))'},
     'ctor:std::vector<char>/0': {'expr': '((struct vs_vec){vs_empty_storage, 0})'},
 })
 THROWING = ['vs_astr_assign_ptr_n']
@@ -86,11 +93,37 @@ FUNCTIONS = [f for f in _s.FUNCTIONS if f['q'].startswith('Pistache::StreamBuf::
         assigns vs_exc, g_app_src
         # the bytes handed to the transport are exactly the bytes put so far
         ensures vs_exc == 0 && RET.length_ == WRITTEN(this) && RET.data_.size == WRITTEN(this) && (WRITTEN(this) > 0 ==> g_app_src == this->data_.data)"""},
-    {'q': 'Pistache::DynamicStreamBuf::clear'},
+    {'q': 'Pistache::DynamicStreamBuf::clear', 'contract': """
+        requires FRESH(this, sizeof(*this)) && this->data_.size <= MAXLEN && FRESH(this->data_.data, this->data_.size)
+        assigns SB(this).pb, SB(this).pn, SB(this).pl
+        # the put area is the whole storage again: nothing counts as written
+        ensures PTR_EQ(SB(this).pb, this->data_.data) && SB(this).pn == 0 && SB(this).pl == this->data_.size"""},
+    {'q': 'Pistache::DynamicStreamBuf::DynamicStreamBuf', 'sig': 'void (Pistache::DynamicStreamBuf &&)', 'c': 'Pistache_DynamicStreamBuf_move_ctor', 'contract': """
+        requires FRESH(this, sizeof(*this)) && FRESH(other, sizeof(*other)) && DSB_INV(other) && g_w0 == WRITTEN(other)
+        assigns *this, other->data_, SB(other).pb, SB(other).pn, SB(other).pl
+        # C05 (a response stream that is moved keeps what was written into it): the new buffer owns the storage, has the same cap, and
+        # buffer() hands out exactly the bytes put so far -- the write position is where the old one was
+        ensures this->data_.data == OLD(other->data_.data) && this->data_.size == OLD(other->data_.size) && this->maxSize_ == OLD(other->maxSize_)
+        ensures WRITTEN(this) == g_w0 && __CPROVER_same_object(SB(this).pb, OLD(other->data_.data))
+        # and the room left is the old room left (nothing beyond the storage, nothing lost)
+        ensures WRITTEN(this) + (SB(this).pl - SB(this).pn) == this->data_.size
+        # the moved-from buffer has no put area and no storage
+        ensures other->data_.size == 0 && SB(other).pl == 0 && SB(other).pn == 0"""},
+    {'q': 'Pistache::DynamicStreamBuf::operator=', 'sig': 'Pistache::DynamicStreamBuf &(Pistache::DynamicStreamBuf &&)', 'c': 'Pistache_DynamicStreamBuf_move_assign', 'contract': """
+        requires FRESH(this, sizeof(*this)) && FRESH(other, sizeof(*other)) && DSB_INV(other) && g_w0 == WRITTEN(other)
+        assigns *this, other->data_, SB(other).pb, SB(other).pn, SB(other).pl
+        ensures PTR_EQ(RET, this)
+        ensures this->data_.data == OLD(other->data_.data) && this->data_.size == OLD(other->data_.size) && this->maxSize_ == OLD(other->maxSize_)
+        ensures WRITTEN(this) == g_w0 && __CPROVER_same_object(SB(this).pb, OLD(other->data_.data))
+        ensures WRITTEN(this) + (SB(this).pl - SB(this).pn) == this->data_.size
+        ensures other->data_.size == 0 && SB(other).pl == 0 && SB(other).pn == 0"""},
     {'q': 'Pistache::DynamicStreamBuf::maxSize'},
 ]
 PROOFS = [
     {'name': 'DSB_reserve', 'enforce': 'Pistache_DynamicStreamBuf_reserve', 'props': ['C05']},
     {'name': 'DSB_overflow', 'enforce': 'Pistache_DynamicStreamBuf_overflow', 'replace': ['Pistache_DynamicStreamBuf_reserve'], 'props': ['C05']},
+    {'name': 'DSB_clear', 'enforce': 'Pistache_DynamicStreamBuf_clear', 'props': ['C05']},
+    {'name': 'DSB_move_ctor', 'enforce': 'Pistache_DynamicStreamBuf_move_ctor', 'props': ['C05']},
+    {'name': 'DSB_move_assign', 'enforce': 'Pistache_DynamicStreamBuf_move_assign', 'props': ['C05']},
     {'name': 'DSB_buffer', 'enforce': 'Pistache_DynamicStreamBuf_buffer', 'props': ['C05']},
 ]
